@@ -10,7 +10,8 @@ open Gen
 namespace C18
 
 /-- what `set_entry` / `swap_symbols` leave alone: the section stays `Sec`, the fields the accessors
-    look at keep their values -/
+    look at keep their values; in fact NOTHING but the contents of the buffer changes (`eqv`), the
+    buffer keeps its length and a section neither becomes resident nor loses its data (`dlen`) -/
 structure Keep (b' b : SecBuf) : Prop where
   sec : Sec b'
   size : b'.size = b.size
@@ -18,8 +19,11 @@ structure Keep (b' b : SecBuf) : Prop where
   stype : b'.stype = b.stype
   cls : b'.cls = b.cls
   data : ∀ d', b'.data = some d' → ∃ d, b.data = some d
+  eqv : ∃ d, b' = { b with data := d }
+  dlen : b'.data.map List.length = b.data.map List.length
 
-theorem Keep.refl {b : SecBuf} (h : Sec b) : Keep b b := ⟨h, rfl, rfl, rfl, rfl, fun d h => ⟨d, h⟩⟩
+theorem Keep.refl {b : SecBuf} (h : Sec b) : Keep b b :=
+  ⟨h, rfl, rfl, rfl, rfl, fun d h => ⟨d, h⟩, ⟨b.data, rfl⟩, rfl⟩
 
 theorem Keep.small {b' b : SecBuf} (h : Keep b' b) (hb : Small b) : Small b' := by
   intro d' hd'
@@ -28,12 +32,15 @@ theorem Keep.small {b' b : SecBuf} (h : Keep b' b) (hb : Small b) : Small b' := 
 
 theorem Keep.trans {a b c : SecBuf} (h1 : Keep a b) (h2 : Keep b c) : Keep a c :=
   ⟨h1.sec, h1.size.trans h2.size, h1.entSize.trans h2.entSize, h1.stype.trans h2.stype, h1.cls.trans h2.cls,
-    fun d' hd' => by obtain ⟨d, hd⟩ := h1.data d' hd'; exact h2.data d hd⟩
+    fun d' hd' => by obtain ⟨d, hd⟩ := h1.data d' hd'; exact h2.data d hd,
+    by obtain ⟨d1, e1⟩ := h1.eqv; obtain ⟨d2, e2⟩ := h2.eqv; exact ⟨d1, by rw [e1, e2]⟩,
+    h1.dlen.trans h2.dlen⟩
 
 theorem keep_data {b : SecBuf} (hs : Sec b) {d d' : Bytes} (hd : b.data = some d) (hl : d'.length = d.length) :
     Keep { b with data := some d' } b :=
   ⟨⟨hs.settled, fun x hx => by
-      simp only [Option.some.injEq] at hx; subst hx; rw [hl]; exact hs.buf d hd⟩, rfl, rfl, rfl, rfl, fun _ _ => ⟨d, hd⟩⟩
+      simp only [Option.some.injEq] at hx; subst hx; rw [hl]; exact hs.buf d hd⟩, rfl, rfl, rfl, rfl, fun _ _ => ⟨d, hd⟩,
+    ⟨some d', rfl⟩, by rw [hd]; simp [hl]⟩
 
 theorem wrField_len (enc : Enc) (n x : Nat) : (wrField enc n x).length = n := by
   simp [wrField, hostEncode]; split <;> simp
